@@ -12,10 +12,10 @@ from __future__ import annotations
 import json
 from collections import Counter
 
-from mc.drivers import bpm, mutate
+from mc.drivers import bpm, ladder, mutate
 from mc.drivers.scenarios import SCENARIOS
 from mc.engine import e2
-from mc.engine.core import Collector, Result, Violation
+from mc.engine.core import Collector, Result, Violation, pmap
 from mc.ref import hugrjson as H
 from mc.ref import schema as S
 
@@ -202,6 +202,37 @@ def check_extensions():
     return fails, n + 2
 
 
+LADDER_KINDS = ("deladd", "del", "meta", "order")
+
+
+def ladder_judge(case):
+    """The ladder HUGR as built and after every single store mutation of LADDER_KINDS."""
+    out = []
+    for hist, h in mutate.histories(lambda: ladder.build(case), 1, "quick", kinds=LADDER_KINDS):
+        tag = "+".join(m[0] for m in hist) or "built"
+        try:
+            doc = json.loads(h.to_json())
+        except Exception as e:  # noqa: BLE001
+            out.append((f"to_json-raised:{tag}:ladder-{case[0]}", f"to_json raised {type(e).__name__}: {e} | history={hist} | ladder={case}"))
+            continue
+        for sig, msg in check_doc(h, doc, tag):
+            out.append((f"{sig}:ladder-{case[0]}", f"{msg} | history={hist} | ladder={case}"))
+    return out
+
+
+def _ladder_chunk(cases):
+    return [(case, ladder_judge(case)) for case in cases]
+
+
+def run_ladder(tier, col):
+    cases = list(ladder.cases_for(tier))
+    for res in pmap(_ladder_chunk, [cases[i::64] for i in range(64)]):
+        for case, fails in res:
+            for sig, msg in fails:
+                col.add(sig, msg, {"ladder": case, "tier": tier})
+    return len(cases)
+
+
 def run(tier: str, seed: int) -> Result:
     global _DEPTH, _TIER
     plan, _DEPTH = PLAN[tier]
@@ -212,6 +243,7 @@ def run(tier: str, seed: int) -> Result:
         case["depth"] = _DEPTH
         case["tier"] = tier
         col.add(sig, msg, case)
+    n_ladder = run_ladder(tier, col)
     efails, n_ext = check_extensions()
     for sig, msg in efails:
         col.add(sig, msg, {"extensions": True})
@@ -219,11 +251,12 @@ def run(tier: str, seed: int) -> Result:
         "states": r.states,
         "transitions": r.transitions,
         "traces_validated_against_impl": r.transitions,
-        "evaluations": r.complete_programs + n_ext,
+        "evaluations": r.complete_programs + n_ext + n_ladder,
         "distinct_nontrivial": r.nontrivial,
         "rule": "every complete builder program of the plan x every store-mutation history up to the depth bound; each resulting "
         "document is checked against the published strict schema, R2's index rules and the port-layout image of Hugr.links(); "
-        "plus package documents of module programs and extension documents (std + hand-built)",
+        "plus package documents of module programs and extension documents (std + hand-built); plus the size ladders of "
+        "mc/drivers/ladder.py, each as built and after every single mutation",
         "samples": r.samples or [{"scenario": "D1", "program": []}],
         "exhaustive": True,
         "plan": plan,
@@ -232,6 +265,8 @@ def run(tier: str, seed: int) -> Result:
         "programs_where_a_builder_call_raised": r.builder_raised,
         "extension_and_package_documents": n_ext,
         "feature_counts": r.features,
+        "ladder_cases": n_ladder,
+        "ladder": {"families": sorted(ladder.FAMILIES), "sizes": ladder.SIZES[tier], "caps": ladder.CAPS, "mutations": list(LADDER_KINDS)},
     }
     return Result(cov, col.violations, ["published schema specification/schema/hugr_schema_strict_live.json via jsonschema", "R2 port layout: mc/ref/hugrjson.py"])
 
@@ -242,6 +277,8 @@ def replay(case) -> list[Violation]:
         return [Violation(s, m, case) for s, m in check_extensions()[0]]
     _DEPTH = case.get("depth", 1)
     _TIER = case.get("tier", "quick")
+    if "ladder" in case:
+        return [Violation(s, m, case) for s, m in ladder_judge(case["ladder"])]
     sc = SCENARIOS[case["scenario"]]
     ctx = bpm.run(sc, case["program"])
     return [Violation(s, m, case) for s, m in oracle(sc, ctx, case["program"])]
